@@ -47,7 +47,13 @@ pub fn link(cap: &Capture, scheme: &str, shuffle: u32, which: Which) -> Result<I
     if !units.iter().any(|u| u.name == "main") {
         return Err(LinkError::NoMain);
     }
-    let asm = asm6502::assemble(&units, CODE_START + 4, &layout.symbols).map_err(LinkError::Asm)?;
+    let asm = asm6502::assemble(&units, CODE_START + 4, &layout.symbols).map_err(|e| {
+        if e.kind == asm6502::AsmErrorKind::ImageTooLarge {
+            LinkError::Layout(LayoutError::RomFull)
+        } else {
+            LinkError::Asm(e)
+        }
+    })?;
     Ok(Image { layout, asm, entry: CODE_START })
 }
 
